@@ -17,12 +17,14 @@ func init() {
 			"R2 the connection writer records every line in the keep-safe buffer before it attempts to write it, and getRedo moves everything still queued into that buffer before it takes the buffer's content; " +
 			"R3 every hop of the spool pipeline forwards each value exactly once: Writer (InRT/InBulk → queueBuffer), Buffer (queueBuffer → queue.Put), Ingest (each element, in order, to InBulk); " +
 			"R4 unspooling is enabled only while a connection exists, spooling is on and nothing was dropped in this or the previous period, and the unspool case sends to that connection; " +
-			"(with C06.R4 for the while-down dispositions and C09.R2 for ack-after-delivery).",
+			"R5 the disk queue's reader and writer agree on record format and segment-roll condition and the read position advances only after delivery; " +
+			"(with C06.R4 for the while-down dispositions).",
 		NotDecided: "that the 10 s keep-safe window exceeds failure-detection latency (timing); duplicates versus losses under real schedules; disk write errors (queue.Put's error is discarded — a different fault model).",
 		Rules: []RuleDef{
 			{ID: "C07.R1", Min: 3, Doc: "redo on dead connection: path enumeration of the relay loop head (from the loop header to the select) and of collectRedo", Run: c07r1},
 			{ID: "C07.R2", Min: 2, Doc: "keep before write: keepSafe.Add(buf) dominates Conn.Write(buf) for the same received value; in getRedo every received value goes to keepSafe.Add and GetAll is called only on the drained path", Run: c07r2},
 			{ID: "C07.R3", Min: 4, Doc: "lossless hops: per-case path enumeration of Spool.Writer and Spool.Buffer; Ingest's range loop", Run: c07r3},
+			{ID: "C07.R5", Min: 3, Doc: "the disk queue behind the spool hands back what it was given: reader and writer agree on the record format and segment-roll condition, and the read position only advances after delivery (rules C09.R5 and C09.R2 evaluated for this property as well)", Run: func(c *Check) { c09r5(c); c09r2(c) }},
 			{ID: "C07.R4", Min: 2, Doc: "unspool gating: the assignment toUnspool = spool.Out is dominated by the true edges of conn != nil, Spool, !SlowLastLoop, !SlowNow; the other assignment is nil", Run: c07r4},
 		},
 	})
